@@ -13,3 +13,24 @@ func VerifInstallSym(names ...string) {
 		append(base.ClassInheritanceMap[classNode], base.ClassNode{Frame: "Builtin", Class: ""})
 	d.SetDefinedClass()
 }
+
+// VerifDefineInstance declares an instance method through the real loader path
+// (setupMethodArgs + defineBuiltinInstanceMethod) and returns its method T.
+func VerifDefineInstance(class, method string, args []base.T, ret base.T) *base.T {
+	d := NewDefineBuiltinMethod("Builtin", class)
+	d.defineBuiltinInstanceMethod("Builtin", method, args, ret)
+	return base.GetMethodT("Builtin", class, method, false)
+}
+
+// VerifArg builds a declared parameter the way parseArguments does.
+func VerifArg(t base.T, key string, isDefault, isAsterisk bool) base.T {
+	t.IsBuiltinAsterisk = isAsterisk
+	t.SetIsBuiltin(true)
+	if isDefault {
+		t.SetHasDefault(true)
+	}
+	if key == "" {
+		return t
+	}
+	return *base.MakeKeyValue(key, &t)
+}
